@@ -234,6 +234,9 @@ OnExecute(ev, T, Y) ==
       fr == [ids |-> ev.ids, nvals |-> ev.nvals, meta |-> [i \in 1 .. n |-> ev.ids[i].k[3]]]
   IN IF Y.lost THEN Res(T, Y, v, "")
      ELSE IF ~Has(T.ex, e) THEN Res(T, Y, v, "execute-before-any-lookup")
+     ELSE IF T.ex[e].pc = "done" /\ T.ex[e].res = "err_ctx"
+          THEN \* written before the caller's context ended, read by the node after the caller returned
+               Res([T EXCEPT !.ex[e].nframes = @ + 1, !.ex[e].frame = fr], Y, v, "")
      ELSE LET T1 == AdvTo(T, e, {"send"})
               disc == T1.ex[e].pc = "send"
               T2 == IF disc THEN SendExecute(T1, e)
@@ -244,6 +247,8 @@ OnExecReply(ev, T, Y) ==
   LET e == ev.e
       Y1 == [Y EXCEPT !.unp = Put(@, e, IF ev.kind = "unprepared" THEN ev.id ELSE NoId), !.ust = Put(@, e, Y.stamp)]
   IN IF e = 0 \/ ~Has(T.ex, e) \/ Y.lost THEN Res(T, Y1, "", "")
+     ELSE IF ev.kind = "error" THEN Res(T, Y1, "", "livelock-guard-of-the-node")
+     ELSE IF T.ex[e].pc = "done" /\ T.ex[e].res = "err_ctx" THEN Res(T, Y1, "", "")   \* answer to a caller that has left
      ELSE IF ~NodeExecuteEn(T, e) THEN Res(T, Y1, "", "execute-answer-unexpected")
      ELSE LET T1 == NodeExecute(T, e)
               same == IF ev.kind = "rows" THEN T1.ex[e].pc = "done"
